@@ -188,7 +188,13 @@ class DensityMatrix(StateRepresentationBase):
                     f'measurement_determinism parameter must be "probabilistic", 0, or 1'
                 )
 
-            m, norm = projectors[outcome], probs[outcome]
+            # the state may be sub-normalised (its trace is the photon survival probability): condition on the
+            # outcome, i.e. divide by the outcome's probability relative to the trace, so that the trace is kept
+            total = np.sum(probs)
+            if np.isclose(total, 0):
+                # nothing left to measure (all photons lost): the zero matrix stays the zero matrix
+                return outcome
+            m, norm = projectors[outcome], probs[outcome] / total
 
             # this assumes that the projector, m, has the properties: m = sqrt(m) and m = m.dag()
             self._data = (m @ self._data @ np.transpose(np.conjugate(m))) / norm
